@@ -8,7 +8,7 @@ EXPLANATION = ("finalisation ledger (destruct/dealloc counted per managed object
                "(del_raw of String / containers): every unmarked non-root registered object is finalised exactly once, then released exactly once; marked and root objects are untouched")
 OBLIGATIONS = (
     pick("C17", r"gc\.(sweep|rem\.home|set\.home0)", tiers=None)
-    + pick("C16", r"string\.(assign|seq)\.s3a2", tiers=("quick", "thorough"))
+    + pick("C16", r"string\.(concat|rem)\.s3a2", tiers=("quick", "thorough"))
     + pick("C02", r"table\.del\.ns5", tiers=("quick", "thorough"))
     + pick("C04", r"array\.del\.n[23]", tiers=("quick", "thorough"))
     + pick("C03", r"tree\.clear\.q[35]$", tiers=("quick", "thorough"))
